@@ -206,6 +206,8 @@ Qed.
 
 (* ------------------------------------------------- hemisphere selection *)
 Definition sel (p : R) (v : vec3 (T:=R)) : bool := region_ge ROps (hemi_normal ROps p) v.
+(* the selection made by vector2xy / vector2xy_split: the test on the UNIT vector *)
+Definition selu (p : R) (v : vec3 (T:=R)) : bool := sel p (vunit ROps v).
 
 Lemma sel_true p x y z : sel p (x, y, z) = true <-> - eps9 < - p * z.
 Proof.
@@ -219,85 +221,131 @@ Proof.
   rewrite Rltb_false. split; intros; lra.
 Qed.
 
+Lemma vunit_idem v : vunit ROps (vunit ROps v) = vunit ROps v.
+Proof.
+  destruct v as [[x y] z]. destruct (Req_dec (nrm (x, y, z)) 0) as [E | E].
+  - apply nrm_zero in E. destruct E as [-> [-> ->]]. rewrite vunit_zero. apply vunit_zero.
+  - apply vunit_of_unit. apply vunit_unit. exact E.
+Qed.
+
+(* _vector2xy normalises once more: no effect on a unit (or zero) vector *)
+Lemma project1_vunit p v : project1 ROps p (vunit ROps v) = project1 ROps p v.
+Proof. unfold project1. rewrite vunit_idem. reflexivity. Qed.
+
+Lemma project1_zero p : is_pole p -> project1 ROps p (0, 0, 0) = (0, 0).
+Proof.
+  intros Hp. unfold project1. rewrite vunit_zero.
+  rewrite k_value by (destruct Hp; subst p; lra).
+  f_equal; field; destruct Hp; subst p; lra.
+Qed.
+
+Lemma nrm_pos v : nrm v <> 0 -> 0 < nrm v.
+Proof. intros H. pose proof (nrm_nonneg v). lra. Qed.
+
+(* on a non-zero vector the test is  -pole * z > -1e-9 * |v| *)
+Lemma selu_true p x y z : nrm (x, y, z) <> 0 ->
+  (selu p (x, y, z) = true <-> - eps9 * nrm (x, y, z) < - p * z).
+Proof.
+  intros Hn. unfold selu. rewrite vunit_nonzero by exact Hn. rewrite sel_true.
+  pose proof (nrm_pos _ Hn) as Hp. set (n := nrm (x, y, z)) in *.
+  assert (Hi : 0 < / n) by (apply Rinv_0_lt_compat; exact Hp).
+  set (w := z / n). assert (Hz : z = w * n) by (unfold w; field; lra).
+  rewrite Hz. split; intros H; nra.
+Qed.
+
+Lemma selu_false p x y z : nrm (x, y, z) <> 0 ->
+  (selu p (x, y, z) = false <-> - p * z <= - eps9 * nrm (x, y, z)).
+Proof.
+  intros Hn. pose proof (selu_true p x y z Hn) as H.
+  destruct (selu p (x, y, z)); split; intros H1; try discriminate; try reflexivity.
+  - assert (- eps9 * nrm (x, y, z) < - p * z) by (apply H; reflexivity). lra.
+  - destruct (Rlt_dec (- eps9 * nrm (x, y, z)) (- p * z)) as [L | L]; [| lra].
+    apply H in L. discriminate.
+Qed.
+
+Lemma selu_zero p : selu p (0, 0, 0) = true.
+Proof. unfold selu. rewrite vunit_zero. apply sel_true. pose proof eps9_pos. lra. Qed.
+
+(* the selection does not depend on the length of the vector *)
+Lemma selu_scale p k x y z : 0 < k -> nrm (x, y, z) <> 0 ->
+  selu p (k * x, k * y, k * z) = selu p (x, y, z).
+Proof. intros Hk Hn. unfold selu. rewrite vunit_scale by assumption. reflexivity. Qed.
+
+(* only vectors within 1e-9 (relative to their length) of the equator are
+   selected for both hemispheres *)
+Lemma selu_both x y z : nrm (x, y, z) <> 0 ->
+  selu (-1) (x, y, z) = true -> selu 1 (x, y, z) = true -> Rabs z < eps9 * nrm (x, y, z).
+Proof.
+  intros Hn H1 H2. apply selu_true in H1; [| exact Hn]. apply selu_true in H2; [| exact Hn].
+  apply Rabs_def1; lra.
+Qed.
+
 Lemma in_vector2xy p vs P :
-  In P (vector2xy ROps p vs) <-> exists v, In v vs /\ sel p v = true /\ P = project1 ROps p v.
+  In P (vector2xy ROps p vs) <-> exists v, In v vs /\ selu p v = true /\ P = project1 ROps p v.
 Proof.
   unfold vector2xy. rewrite in_map_iff. split.
-  - intros [v [E H]]. apply filter_In in H. exists v. unfold sel. intuition.
-  - intros [v [H1 [H2 E]]]. exists v. split; [auto |]. apply filter_In. auto.
+  - intros [u [E H]]. apply filter_In in H. destruct H as [H1 H2]. apply in_map_iff in H1.
+    destruct H1 as [v [Ev Hv]]. exists v. subst u. rewrite project1_vunit in E.
+    unfold selu, sel. auto.
+  - intros [v [H1 [H2 E]]]. exists (vunit ROps v). split; [rewrite project1_vunit; auto |].
+    apply filter_In. split; [apply in_map; exact H1 | exact H2].
 Qed.
 
 (* the forward projection of a whole array: every returned point comes from a
-   selected vector, and for a selected vector of length n > eps the point lies
-   in the disk of squared radius (n + eps)/(n - eps); a vector on the far closed
-   hemisphere lands in the closed unit disk whatever its length *)
-Lemma project1_disk p v : is_pole p -> sel p v = true -> eps9 < nrm v ->
+   selected vector; whatever the length of that vector the point lies in the disk
+   of squared radius (1 + eps)/(1 - eps), and in the closed unit disk when the
+   vector is on the closed far hemisphere *)
+Lemma project1_disk p v : is_pole p -> selu p v = true ->
   let '(X, Y) := project1 ROps p v in
-  X * X + Y * Y <= (nrm v + eps9) / (nrm v - eps9).
+  X * X + Y * Y <= (1 + eps9) / (1 - eps9).
 Proof.
-  destruct v as [[x y] z]. intros Hp Hs Hn.
+  destruct v as [[x y] z]. intros Hp Hs.
   pose proof eps9_pos as He.
-  assert (Hn0 : nrm (x, y, z) <> 0) by lra.
-  unfold project1. pose proof (vunit_unit (x, y, z) Hn0) as Hu.
-  rewrite vunit_nonzero in * by exact Hn0.
-  set (n := nrm (x, y, z)) in *.
-  apply sel_true in Hs.
-  assert (Hi : 0 < / n) by (apply Rinv_0_lt_compat; lra).
-  assert (Ht : p * (z / n) <= eps9 / n).
-  { unfold Rdiv. nra. }
-  assert (Ht1 : eps9 / n < 1).
-  { apply Rmult_lt_reg_r with n. lra. unfold Rdiv. rewrite Rmult_assoc, Rinv_l by lra. lra. }
-  pose proof (k_disk (x / n) (y / n) (z / n) p (eps9 / n) Hp Hu Ht Ht1) as H.
-  destruct (vector2xy_k ROps (x / n) (y / n) (z / n) p) as [X Y].
-  replace ((n + eps9) / (n - eps9)) with ((1 + eps9 / n) / (1 - eps9 / n)) by (field; split; lra).
-  exact H.
+  destruct (Req_dec (nrm (x, y, z)) 0) as [E | Hn0].
+  - apply nrm_zero in E. destruct E as [-> [-> ->]]. rewrite project1_zero by exact Hp.
+    assert (Hi : 0 < / (1 - eps9)) by (apply Rinv_0_lt_compat; lra). unfold Rdiv. nra.
+  - unfold selu in Hs. unfold project1. pose proof (vunit_unit (x, y, z) Hn0) as Hu.
+    rewrite vunit_nonzero in * by exact Hn0.
+    set (n := nrm (x, y, z)) in *.
+    apply sel_true in Hs.
+    assert (Ht : p * (z / n) <= eps9) by lra.
+    exact (k_disk (x / n) (y / n) (z / n) p eps9 Hp Hu Ht (proj2 He)).
 Qed.
 
-Lemma project1_disk_closed p v : is_pole p -> nrm v <> 0 -> p * snd v <= 0 ->
+Lemma project1_disk_closed p v : is_pole p -> p * snd v <= 0 ->
   let '(X, Y) := project1 ROps p v in X * X + Y * Y <= 1.
 Proof.
-  destruct v as [[x y] z]. simpl snd. intros Hp Hn Hz.
-  unfold project1. pose proof (vunit_unit (x, y, z) Hn) as Hu.
-  rewrite vunit_nonzero in * by exact Hn.
-  set (n := nrm (x, y, z)) in *.
-  assert (Hn' : 0 < n) by (pose proof (nrm_nonneg (x, y, z)); fold n in H; lra).
-  assert (Hi : 0 < / n) by (apply Rinv_0_lt_compat; lra).
-  apply k_disk_closed; auto. unfold Rdiv. nra.
+  destruct v as [[x y] z]. simpl snd. intros Hp Hz.
+  destruct (Req_dec (nrm (x, y, z)) 0) as [E | Hn].
+  - apply nrm_zero in E. destruct E as [-> [-> ->]]. rewrite project1_zero by exact Hp. lra.
+  - unfold project1. pose proof (vunit_unit (x, y, z) Hn) as Hu.
+    rewrite vunit_nonzero in * by exact Hn.
+    set (n := nrm (x, y, z)) in *.
+    assert (Hn' : 0 < n) by (apply nrm_pos; exact Hn).
+    assert (Hi : 0 < / n) by (apply Rinv_0_lt_compat; lra).
+    apply k_disk_closed; auto. unfold Rdiv. nra.
 Qed.
 
-(* round trip through the plane for any selected non-zero vector: the inverse
-   projection returns the unit vector *)
-Lemma project1_roundtrip p v : is_pole p -> sel p v = true -> eps9 <= nrm v ->
+(* round trip through the plane for EVERY selected non-zero vector, whatever its
+   length: the inverse projection returns the unit vector *)
+Lemma project1_roundtrip p v : is_pole p -> selu p v = true -> nrm v <> 0 ->
   xy2vec ROps p (project1 ROps p v) = vunit ROps v.
 Proof.
-  destruct v as [[x y] z]. intros Hp Hs Hge. pose proof eps9_pos as He.
-  assert (Hn : nrm (x, y, z) <> 0) by lra.
-  unfold project1. pose proof (vunit_unit (x, y, z) Hn) as Hu.
+  destruct v as [[x y] z]. intros Hp Hs Hn. pose proof eps9_pos as He.
+  unfold selu in Hs. unfold project1. pose proof (vunit_unit (x, y, z) Hn) as Hu.
   rewrite vunit_nonzero in * by exact Hn.
   set (n := nrm (x, y, z)) in *.
   apply inverse_of_forward; auto.
   apply sel_true in Hs.
-  intro E.
-  assert (Hz : z = p * n) by (rewrite <- E; field; lra).
-  rewrite Hz in Hs. destruct Hp; subst p; nra.
+  intro E. rewrite E in Hs. destruct Hp; subst p; lra.
 Qed.
 
-(* the un-normalised hemisphere test: a vector shorter than 1e-9 passes the
-   test of BOTH hemispheres wherever it points *)
-Lemma sel_short p x y z : is_pole p -> nrm (x, y, z) < eps9 -> sel p (x, y, z) = true.
-Proof.
-  intros Hp Hn. apply sel_true.
-  pose proof (nrm_sq x y z) as E. pose proof (nrm_nonneg (x, y, z)) as H0.
-  assert (Hz : z * z <= nrm (x, y, z) * nrm (x, y, z)) by nra.
-  assert (- eps9 < z < eps9) by (pose proof eps9_pos; split; nra).
-  destruct Hp; subst p; lra.
-Qed.
-
-(* witness: (3e-10, 0, -4e-10) has unit vector (0.6, 0, -0.8) on the LOWER
-   hemisphere but is returned by the upper-hemisphere projection at (3, 0) *)
-Lemma short_vector_outside_disk :
+(* the former witness of the un-normalised test: (3e-10, 0, -4e-10) has unit
+   vector (0.6, 0, -0.8); it is not returned for the upper hemisphere any more, and
+   the lower-hemisphere projection puts it at (1/3, 0) *)
+Lemma short_vector_selection :
   let v : vec3 (T:=R) := (3 / 10000000000, 0, - 4 / 10000000000) in
-  sel (-1) v = true /\ project1 ROps (-1) v = (3, 0).
+  selu (-1) v = false /\ selu 1 v = true /\ project1 ROps 1 v = (1 / 3, 0).
 Proof.
   cbv zeta.
   assert (Hn : nrm (3 / 10000000000, 0, - 4 / 10000000000) = 5 / 10000000000).
@@ -305,8 +353,9 @@ Proof.
     replace (3 / 10000000000 * (3 / 10000000000) + 0 * 0 + - 4 / 10000000000 * (- 4 / 10000000000))
       with ((5 / 10000000000)²) by (unfold Rsqr; field).
     apply sqrt_Rsqr. lra. }
-  split.
-  - apply sel_true. unfold eps9. lra.
+  split; [| split].
+  - apply selu_false; rewrite Hn; unfold eps9; lra.
+  - apply selu_true; rewrite Hn; unfold eps9; lra.
   - unfold project1. rewrite vunit_nonzero by (rewrite Hn; lra). rewrite Hn.
     rewrite k_value by lra. f_equal; field.
 Qed.
@@ -314,40 +363,55 @@ Qed.
 (* --------------------------------------------------------------- split *)
 Lemma split_upper vs P :
   In P (fst (vector2xy_split ROps vs)) <->
-  exists v, In v vs /\ - eps9 < snd v /\ P = project1 ROps (-1) v.
+  exists v, In v vs /\ - eps9 < snd (vunit ROps v) /\ P = project1 ROps (-1) v.
 Proof.
-  unfold vector2xy_split. simpl fst. rsimpl. rewrite in_vector2xy.
-  split; intros [v [H1 [H2 H3]]]; exists v; destruct v as [[x y] z]; simpl snd in *.
+  unfold vector2xy_split. cbn [fst]. change (o_ofZ ROps (-1)) with (-1). rewrite in_vector2xy.
+  split; intros [v [H1 [H2 H3]]]; exists v; unfold selu in *;
+    destruct (vunit ROps v) as [[a b] c]; simpl snd in *.
   - apply sel_true in H2. repeat split; auto. lra.
   - repeat split; auto. apply sel_true. lra.
 Qed.
 
 Lemma split_lower vs P :
   In P (snd (vector2xy_split ROps vs)) <->
-  exists v, In v vs /\ snd v < eps9 /\ P = project1 ROps 1 v.
+  exists v, In v vs /\ snd (vunit ROps v) < eps9 /\ P = project1 ROps 1 v.
 Proof.
-  unfold vector2xy_split. simpl snd. rsimpl. rewrite in_vector2xy.
-  split; intros [v [H1 [H2 H3]]]; exists v; destruct v as [[x y] z]; simpl snd in *.
+  unfold vector2xy_split. cbn [snd]. change (o_ofZ ROps 1) with 1. rewrite in_vector2xy.
+  split; intros [v [H1 [H2 H3]]]; exists v; unfold selu in *;
+    destruct (vunit ROps v) as [[a b] c]; simpl snd in *.
   - apply sel_true in H2. repeat split; auto. lra.
   - repeat split; auto. apply sel_true. lra.
 Qed.
 
+Lemma sel_cover u : sel (-1) u = true \/ sel 1 u = true.
+Proof.
+  destruct u as [[x y] z]. pose proof eps9_pos.
+  destruct (Rle_dec 0 z); [left | right]; apply sel_true; lra.
+Qed.
+
 (* every vector is assigned to a hemisphere; z >= 0 goes to the upper set,
    z <= 0 to the lower one, equatorial vectors (z = 0) to both; a vector with
-   z >= eps is only in the upper selection and one with z <= -eps only in the
-   lower one *)
+   z >= eps |v| is only in the upper selection and one with z <= -eps |v| only in
+   the lower one, whatever its length *)
 Lemma split_cover v :
-  (0 <= snd v -> sel (-1) v = true) /\ (snd v <= 0 -> sel 1 v = true) /\
-  (sel (-1) v = true \/ sel 1 v = true) /\
-  (eps9 <= snd v -> sel 1 v = false) /\ (snd v <= - eps9 -> sel (-1) v = false).
+  (0 <= snd v -> selu (-1) v = true) /\ (snd v <= 0 -> selu 1 v = true) /\
+  (selu (-1) v = true \/ selu 1 v = true) /\
+  (nrm v <> 0 -> eps9 * nrm v <= snd v -> selu 1 v = false) /\
+  (nrm v <> 0 -> snd v <= - eps9 * nrm v -> selu (-1) v = false).
 Proof.
-  destruct v as [[x y] z]. simpl snd. pose proof eps9_pos.
-  repeat split; intros.
-  - apply sel_true. lra.
-  - apply sel_true. lra.
-  - destruct (Rle_dec 0 z); [left | right]; apply sel_true; lra.
-  - apply sel_false. lra.
-  - apply sel_false. lra.
+  destruct v as [[x y] z]. simpl snd. pose proof eps9_pos as He.
+  destruct (Req_dec (nrm (x, y, z)) 0) as [E | Hn].
+  - apply nrm_zero in E. destruct E as [-> [-> ->]].
+    assert (N0 : nrm (0, 0, 0) = 0).
+    { unfold nrm, vnorm. rsimpl. replace (0 * 0 + 0 * 0 + 0 * 0) with 0 by ring. apply sqrt_0. }
+    repeat split; intros; try apply selu_zero; try (left; apply selu_zero); contradiction.
+  - pose proof (nrm_pos _ Hn) as Hp.
+    repeat split; intros.
+    + apply selu_true; [exact Hn | nra].
+    + apply selu_true; [exact Hn | nra].
+    + unfold selu. apply sel_cover.
+    + apply selu_false; [exact Hn | lra].
+    + apply selu_false; [exact Hn | lra].
 Qed.
 
 Lemma filter_cover_length {A} (f g : A -> bool) (l : list A) :
@@ -362,38 +426,47 @@ Lemma split_lengths vs :
   (length vs <= length (fst (vector2xy_split ROps vs)) + length (snd (vector2xy_split ROps vs)))%nat.
 Proof.
   unfold vector2xy_split, vector2xy. simpl fst. simpl snd. rewrite !map_length.
-  apply filter_cover_length. intros v.
-  destruct (split_cover v) as [_ [_ [H _]]]. exact H.
+  rewrite <- (map_length (vunit ROps) vs) at 1.
+  apply filter_cover_length. intros u. apply sel_cover.
 Qed.
 
 (* ------------------------------------------------- spherical coordinates *)
 Definition tol8 : R := 1 / 100000000.
-(* Vector3d.azimuth sets components with |c| <= 1e-8 to zero (np.isclose) *)
-Definition snap (t : R) : R := if Rleb (Rabs t) tol8 then 0 else t.
+(* Vector3d.azimuth rounds COPIES of x and y: a component with |c| <= 1e-8 * |v|
+   (np.isclose(c, 0, atol=1e-8 * radial)) counts as zero in arctan2; the vector
+   itself is not modified, polar and radial are computed from the data as given *)
+Definition snapr (n t : R) : R := if Rleb (Rabs t) (tol8 * n) then 0 else t.
+Definition nosnapr (n t : R) : Prop := t = 0 \/ tol8 * n < Rabs t.
+(* the band of a unit vector *)
 Definition nosnap (t : R) : Prop := t = 0 \/ tol8 < Rabs t.
 
-Lemma snap_id t : nosnap t -> snap t = t.
+Lemma nosnapr_unit t : nosnapr 1 t <-> nosnap t.
+Proof. unfold nosnapr, nosnap. rewrite Rmult_1_r. reflexivity. Qed.
+
+(* the band is relative to the length: it does not depend on the scale *)
+Lemma nosnapr_scale r c : 0 < r -> (nosnapr r (r * c) <-> nosnap c).
 Proof.
-  unfold snap, nosnap. intros [H | H].
-  - subst t. destruct (Rleb (Rabs 0) tol8); reflexivity.
-  - destruct (Rleb (Rabs t) tol8) eqn:E; [| reflexivity].
+  intros Hr. unfold nosnapr, nosnap. rewrite Rabs_mult, (Rabs_right r) by lra.
+  unfold tol8. split; intros [H | H].
+  - left. nra.
+  - right. nra.
+  - left. subst c. ring.
+  - right. nra.
+Qed.
+
+Lemma snapr_id n t : nosnapr n t -> snapr n t = t.
+Proof.
+  unfold snapr, nosnapr. intros [H | H].
+  - subst t. destruct (Rleb (Rabs 0) (tol8 * n)); reflexivity.
+  - destruct (Rleb (Rabs t) (tol8 * n)) eqn:E; [| reflexivity].
     apply Rleb_true in E. lra.
 Qed.
 
-Lemma azimuth_unfold x y z :
-  v_azimuth ROps x y z =
-  Ratan2 (snap y) (snap x) + (if Rltb (Ratan2 (snap y) (snap x)) 0 then 2 else 0) * PI.
-Proof. reflexivity. Qed.
-
-(* Vector3d.azimuth writes the snapped components back into the vector (in-place
-   mutation through views); polar and radial of to_polar are computed afterwards *)
-Lemma azimuth_data_unfold x y z : v_azimuth_data ROps x y z = (snap x, snap y, z).
-Proof. reflexivity. Qed.
-
-Lemma to_polar_unfold x y z :
-  to_polar ROps false x y z =
-  (v_azimuth ROps x y z, v_polar ROps (snap x) (snap y) z, v_radial ROps (snap x) (snap y) z).
-Proof. reflexivity. Qed.
+Lemma snapr_cases n t : snapr n t = t \/ (snapr n t = 0 /\ Rabs t <= tol8 * n).
+Proof.
+  unfold snapr. destruct (Rleb (Rabs t) (tol8 * n)) eqn:E; [right | left; reflexivity].
+  apply Rleb_true in E. auto.
+Qed.
 
 Definition wrap2pi (a : R) : R := a + (if Rltb a 0 then 2 else 0) * PI.
 
@@ -413,6 +486,17 @@ Proof.
   - apply Rltb_true in E. lra.
   - apply Rltb_false in E. lra.
 Qed.
+
+Lemma azimuth_unfold x y z :
+  v_azimuth ROps x y z =
+  wrap2pi (Ratan2 (snapr (nrm (x, y, z)) y) (snapr (nrm (x, y, z)) x)).
+Proof. reflexivity. Qed.
+
+(* reading the azimuth leaves the vector alone: polar and radial of to_polar are
+   those of the vector as given *)
+Lemma to_polar_unfold x y z :
+  to_polar ROps false x y z = (v_azimuth ROps x y z, v_polar ROps x y z, v_radial ROps x y z).
+Proof. reflexivity. Qed.
 
 (* the azimuth is always in [0, 2 PI) *)
 Lemma azimuth_range x y z : 0 <= v_azimuth ROps x y z < 2 * PI.
@@ -453,30 +537,170 @@ Proof.
     rewrite Er. replace (x * x + y * y) with (r * r - z * z) by lra. field. lra.
 Qed.
 
-(* Cartesian -> spherical -> Cartesian, radians; all non-zero vectors whose x
-   and y components are not in the snapping band 0 < |c| <= 1e-8 *)
-Lemma cart_sph_cart_rad x y z : 0 < nrm (x, y, z) -> nosnap x -> nosnap y ->
-  polar2vec_r ROps false (vec2polar ROps false (x, y, z)) = (x, y, z).
+(* ---- Cartesian -> spherical -> Cartesian *)
+Lemma rho_0_l y : rho 0 y = Rabs y.
+Proof. unfold rho. replace (0 * 0 + y * y) with (y²) by (unfold Rsqr; ring). apply sqrt_Rsqr_abs. Qed.
+
+Lemma rho_0_r x : rho x 0 = Rabs x.
+Proof. unfold rho. replace (x * x + 0 * 0) with (x²) by (unfold Rsqr; ring). apply sqrt_Rsqr_abs. Qed.
+
+Lemma rho_nonneg x y : 0 <= rho x y.
+Proof. unfold rho. apply sqrt_pos. Qed.
+
+Lemma atan2_0_0 : Ratan2 0 0 = 0.
+Proof. unfold Ratan2. destruct (Rlt_dec 0 0); [lra |]. reflexivity. Qed.
+
+Lemma rho_ge_l x y : Rabs x <= rho x y.
 Proof.
-  intros Hn Hx Hy.
-  unfold vec2polar. rewrite to_polar_unfold. unfold polar2vec_r, from_polar. rsimpl. cbv zeta.
-  rewrite azimuth_unfold, polar_unfold, radial_unfold.
-  rewrite (snap_id x Hx), (snap_id y Hy).
-  fold (wrap2pi (Ratan2 y x)).
-  destruct (wrap2pi_cs (Ratan2 y x)) as [Hc Hs]. rewrite Hc, Hs.
+  pose proof (rho_sq x y) as E. pose proof (rho_nonneg x y) as H. pose proof (Rabs_pos x) as Ha.
+  assert (Hx : Rabs x * Rabs x = x * x) by (unfold Rabs; destruct (Rcase_abs x); ring).
+  destruct (Rle_dec (Rabs x) (rho x y)) as [L | L]; [exact L |]. nra.
+Qed.
+
+Lemma rho_ge_r x y : Rabs y <= rho x y.
+Proof.
+  pose proof (rho_sq x y) as E. pose proof (rho_nonneg x y) as H. pose proof (Rabs_pos y) as Ha.
+  assert (Hy : Rabs y * Rabs y = y * y) by (unfold Rabs; destruct (Rcase_abs y); ring).
+  destruct (Rle_dec (Rabs y) (rho x y)) as [L | L]; [exact L |]. nra.
+Qed.
+
+Lemma rho_le_sum x y : rho x y <= Rabs x + Rabs y.
+Proof.
+  pose proof (rho_sq x y) as E. pose proof (rho_nonneg x y) as H.
+  pose proof (Rabs_pos x) as Hax. pose proof (Rabs_pos y) as Hay.
+  assert (Hx : Rabs x * Rabs x = x * x) by (unfold Rabs; destruct (Rcase_abs x); ring).
+  assert (Hy : Rabs y * Rabs y = y * y) by (unfold Rabs; destruct (Rcase_abs y); ring).
+  destruct (Rle_dec (rho x y) (Rabs x + Rabs y)) as [L | L]; [exact L |]. nra.
+Qed.
+
+(* rho (cos, sin) of the angle of (x, y) is (x, y) itself *)
+Lemma rho_cos_sin x y :
+  rho x y * cos (Ratan2 y x) = x /\ rho x y * sin (Ratan2 y x) = y.
+Proof.
+  destruct (Req_dec x 0) as [Ex | Ex]; destruct (Req_dec y 0) as [Ey | Ey].
+  - subst x y. rewrite rho_0_l, Rabs_R0. split; ring.
+  - destruct (atan2_cos_sin x y (or_intror Ey)) as [H1 H2]. rewrite H1, H2.
+    pose proof (rho_pos x y (or_intror Ey)). split; field; lra.
+  - destruct (atan2_cos_sin x y (or_introl Ex)) as [H1 H2]. rewrite H1, H2.
+    pose proof (rho_pos x y (or_introl Ex)). split; field; lra.
+  - destruct (atan2_cos_sin x y (or_introl Ex)) as [H1 H2]. rewrite H1, H2.
+    pose proof (rho_pos x y (or_introl Ex)). split; field; lra.
+Qed.
+
+(* from_polar of an azimuth wrap2pi(atan2 sy sx) and the polar angle and radius of (x, y, z) *)
+Lemma from_polar_core x y z sx sy : 0 < nrm (x, y, z) ->
+  polar2vec_r ROps false (wrap2pi (Ratan2 sy sx), acos (z / nrm (x, y, z)), nrm (x, y, z)) =
+  (rho x y * cos (Ratan2 sy sx), rho x y * sin (Ratan2 sy sx), z).
+Proof.
+  intros Hn. unfold polar2vec_r, from_polar. rsimpl. cbv zeta.
+  destruct (wrap2pi_cs (Ratan2 sy sx)) as [Hc Hs]. rewrite Hc, Hs.
   rewrite sin_polar by exact Hn.
   rewrite cos_acos by (apply z_over_r; exact Hn).
-  set (r := nrm (x, y, z)) in *.
-  destruct (Req_dec x 0) as [Ex | Ex]; destruct (Req_dec y 0) as [Ey | Ey].
-  - subst x y. assert (Hr0 : rho 0 0 = 0).
-    { unfold rho. replace (0 * 0 + 0 * 0) with 0 by ring. apply sqrt_0. }
-    rewrite Hr0. f_equal; [f_equal |]; field; lra.
-  - destruct (atan2_cos_sin x y (or_intror Ey)) as [H1 H2]. rewrite H1, H2.
-    pose proof (rho_pos x y (or_intror Ey)). f_equal; [f_equal |]; field; lra.
-  - destruct (atan2_cos_sin x y (or_introl Ex)) as [H1 H2]. rewrite H1, H2.
-    pose proof (rho_pos x y (or_introl Ex)). f_equal; [f_equal |]; field; lra.
-  - destruct (atan2_cos_sin x y (or_introl Ex)) as [H1 H2]. rewrite H1, H2.
-    pose proof (rho_pos x y (or_introl Ex)). f_equal; [f_equal |]; field; lra.
+  f_equal; [f_equal |]; field; lra.
+Qed.
+
+Lemma cart_sph_cart_formula x y z : 0 < nrm (x, y, z) ->
+  polar2vec_r ROps false (vec2polar ROps false (x, y, z)) =
+  (rho x y * cos (Ratan2 (snapr (nrm (x, y, z)) y) (snapr (nrm (x, y, z)) x)),
+   rho x y * sin (Ratan2 (snapr (nrm (x, y, z)) y) (snapr (nrm (x, y, z)) x)), z).
+Proof.
+  intros Hn. unfold vec2polar. rewrite to_polar_unfold, azimuth_unfold, polar_unfold, radial_unfold.
+  apply from_polar_core. exact Hn.
+Qed.
+
+(* EXACT round trip, radians: all non-zero vectors of any length whose x and y
+   components are zero or larger than 1e-8 |v| *)
+Lemma cart_sph_cart_rad x y z : 0 < nrm (x, y, z) ->
+  nosnapr (nrm (x, y, z)) x -> nosnapr (nrm (x, y, z)) y ->
+  polar2vec_r ROps false (vec2polar ROps false (x, y, z)) = (x, y, z).
+Proof.
+  intros Hn Hx Hy. rewrite cart_sph_cart_formula by exact Hn.
+  rewrite (snapr_id _ x Hx), (snapr_id _ y Hy).
+  destruct (rho_cos_sin x y) as [H1 H2]. rewrite H1, H2. reflexivity.
+Qed.
+
+(* x rounded to 0, y kept and non-zero *)
+Lemma snapped_x x y : y <> 0 ->
+  rho x y * cos (Ratan2 y 0) = 0 /\ Rabs (rho x y * sin (Ratan2 y 0) - y) <= Rabs x.
+Proof.
+  intros Hy. destruct (atan2_cos_sin 0 y (or_intror Hy)) as [H1 H2].
+  rewrite rho_0_l in H1, H2. rewrite H1, H2.
+  pose proof (rho_ge_r x y) as Hge. pose proof (rho_le_sum x y) as Hle.
+  split; [unfold Rdiv; ring |].
+  destruct (Rlt_dec 0 y) as [P | P].
+  - rewrite (Rabs_right y) in * by lra.
+    replace (rho x y * (y / y) - y) with (rho x y - y) by (field; lra).
+    rewrite Rabs_right by lra. lra.
+  - assert (N : y < 0) by lra. rewrite (Rabs_left y) in * by lra.
+    replace (rho x y * (y / - y) - y) with (- (rho x y - - y)) by (field; lra).
+    rewrite Rabs_Ropp, Rabs_right by lra. lra.
+Qed.
+
+(* y rounded to 0, x kept and non-zero *)
+Lemma snapped_y x y : x <> 0 ->
+  Rabs (rho x y * cos (Ratan2 0 x) - x) <= Rabs y /\ rho x y * sin (Ratan2 0 x) = 0.
+Proof.
+  intros Hx. destruct (atan2_cos_sin x 0 (or_introl Hx)) as [H1 H2].
+  rewrite rho_0_r in H1, H2. rewrite H1, H2.
+  pose proof (rho_ge_l x y) as Hge. pose proof (rho_le_sum x y) as Hle.
+  split; [| unfold Rdiv; ring].
+  destruct (Rlt_dec 0 x) as [P | P].
+  - rewrite (Rabs_right x) in * by lra.
+    replace (rho x y * (x / x) - x) with (rho x y - x) by (field; lra).
+    rewrite Rabs_right by lra. lra.
+  - assert (N : x < 0) by lra. rewrite (Rabs_left x) in * by lra.
+    replace (rho x y * (x / - x) - x) with (- (rho x y - - x)) by (field; lra).
+    rewrite Rabs_Ropp, Rabs_right by lra. lra.
+Qed.
+
+(* round trip of EVERY non-zero vector, whatever its length: z and the length of
+   the (x, y) part come back exactly; x and y come back up to the rounding of the
+   azimuth, which is at most 3e-8 |v| (and nothing outside the band, see above) *)
+Lemma cart_sph_cart_close x y z : 0 < nrm (x, y, z) ->
+  let '(x', y', z') := polar2vec_r ROps false (vec2polar ROps false (x, y, z)) in
+  z' = z /\ x' * x' + y' * y' = x * x + y * y /\
+  Rabs (x' - x) <= 3 * tol8 * nrm (x, y, z) /\ Rabs (y' - y) <= 3 * tol8 * nrm (x, y, z).
+Proof.
+  intros Hn. rewrite cart_sph_cart_formula by exact Hn.
+  set (n := nrm (x, y, z)) in *.
+  assert (He : 0 < tol8 * n) by (unfold tol8; nra).
+  set (e := tol8 * n) in *.
+  split; [reflexivity | split].
+  { set (a := Ratan2 (snapr n y) (snapr n x)).
+    pose proof (sin2_cos2 a) as E. unfold Rsqr in E. pose proof (rho_sq x y) as Er.
+    replace (rho x y * cos a * (rho x y * cos a) + rho x y * sin a * (rho x y * sin a))
+      with (rho x y * rho x y * (sin a * sin a + cos a * cos a)) by ring.
+    rewrite E, Er. ring. }
+  replace (3 * tol8 * n) with (3 * e) by (unfold e; ring).
+  pose proof (Rabs_pos x) as Hax. pose proof (Rabs_pos y) as Hay.
+  destruct (snapr_cases n x) as [Sx | [Sx Bx]]; destruct (snapr_cases n y) as [Sy | [Sy By]];
+    rewrite Sx, Sy; fold e in Bx || idtac; fold e in By || idtac.
+  - destruct (rho_cos_sin x y) as [H1 H2]. rewrite H1, H2.
+    replace (x - x) with 0 by ring. replace (y - y) with 0 by ring. rewrite Rabs_R0. lra.
+  - destruct (Req_dec x 0) as [Ex | Ex].
+    + subst x. rewrite atan2_0_0, cos_0, sin_0, rho_0_l.
+      replace (Rabs y * 1 - 0) with (Rabs y) by ring. replace (Rabs y * 0 - y) with (- y) by ring.
+      rewrite Rabs_Ropp, Rabs_Rabsolu. lra.
+    + destruct (snapped_y x y Ex) as [H1 H2]. rewrite H2.
+      replace (0 - y) with (- y) by ring. rewrite Rabs_Ropp. lra.
+  - destruct (Req_dec y 0) as [Ey | Ey].
+    + subst y. rewrite atan2_0_0, cos_0, sin_0, rho_0_r.
+      replace (Rabs x * 0 - 0) with 0 by ring. rewrite Rabs_R0.
+      replace (Rabs x * 1 - x) with (Rabs x - x) by ring.
+      assert (Rabs (Rabs x - x) <= 2 * Rabs x).
+      { unfold Rabs at 2 3. destruct (Rcase_abs x).
+        - replace (- x - x) with (- (2 * x)) by ring. rewrite Rabs_Ropp, Rabs_left by lra. lra.
+        - replace (x - x) with 0 by ring. rewrite Rabs_R0. lra. }
+      lra.
+    + destruct (snapped_x x y Ey) as [H1 H2]. rewrite H1.
+      replace (0 - x) with (- x) by ring. rewrite Rabs_Ropp. lra.
+  - rewrite atan2_0_0, cos_0, sin_0.
+    pose proof (rho_le_sum x y) as Hle. pose proof (rho_nonneg x y) as H0.
+    replace (rho x y * 0 - y) with (- y) by ring. rewrite Rabs_Ropp.
+    split; [| lra].
+    replace (rho x y * 1 - x) with (rho x y + - x) by ring.
+    pose proof (Rabs_triang (rho x y) (- x)) as T. rewrite Rabs_Ropp, (Rabs_right (rho x y)) in T by lra.
+    lra.
 Qed.
 
 (* degrees flag = scaling by 180/PI on output and PI/180 on input *)
@@ -492,50 +716,66 @@ Proof. reflexivity. Qed.
 Lemma deg_rad_cancel a : a * (180 / PI) * (PI / 180) = a.
 Proof. field. apply PI_neq0. Qed.
 
-Lemma cart_sph_cart_deg x y z : 0 < nrm (x, y, z) -> nosnap x -> nosnap y ->
-  polar2vec_r ROps true (vec2polar ROps true (x, y, z)) = (x, y, z).
+(* the round trip in degrees is the round trip in radians *)
+Lemma cart_sph_cart_deg_rad v :
+  polar2vec_r ROps true (vec2polar ROps true v) = polar2vec_r ROps false (vec2polar ROps false v).
 Proof.
-  intros Hn Hx Hy. rewrite to_polar_deg.
-  pose proof (cart_sph_cart_rad x y z Hn Hx Hy) as H.
-  destruct (vec2polar ROps false (x, y, z)) as [[a t] r].
-  rewrite from_polar_deg, !deg_rad_cancel. exact H.
+  rewrite to_polar_deg. destruct (vec2polar ROps false v) as [[a t] r].
+  rewrite from_polar_deg, !deg_rad_cancel. reflexivity.
 Qed.
 
-(* the snapping band: (1e-9, 1e-9, 0) has positive length but to_polar reports
-   radius 0 (both components are zeroed before polar and radial are computed),
-   so it does not come back *)
-Lemma snap_band_breaks_roundtrip :
+Lemma cart_sph_cart_deg x y z : 0 < nrm (x, y, z) ->
+  nosnapr (nrm (x, y, z)) x -> nosnapr (nrm (x, y, z)) y ->
+  polar2vec_r ROps true (vec2polar ROps true (x, y, z)) = (x, y, z).
+Proof. intros Hn Hx Hy. rewrite cart_sph_cart_deg_rad. apply cart_sph_cart_rad; assumption. Qed.
+
+Lemma cart_sph_cart_exact deg x y z : 0 < nrm (x, y, z) ->
+  nosnapr (nrm (x, y, z)) x -> nosnapr (nrm (x, y, z)) y ->
+  polar2vec_r ROps deg (vec2polar ROps deg (x, y, z)) = (x, y, z).
+Proof. destruct deg; [exact (cart_sph_cart_deg x y z) | exact (cart_sph_cart_rad x y z)]. Qed.
+
+Lemma cart_sph_cart_all deg x y z : 0 < nrm (x, y, z) ->
+  let '(x', y', z') := polar2vec_r ROps deg (vec2polar ROps deg (x, y, z)) in
+  z' = z /\ x' * x' + y' * y' = x * x + y * y /\
+  Rabs (x' - x) <= 3 * tol8 * nrm (x, y, z) /\ Rabs (y' - y) <= 3 * tol8 * nrm (x, y, z).
+Proof.
+  intros Hn. destruct deg; [rewrite cart_sph_cart_deg_rad |]; apply cart_sph_cart_close; exact Hn.
+Qed.
+
+(* the former witnesses of the absolute 1e-8 band: (1e-9, 1e-9, 0) used to come
+   out of to_polar with radius 0; now every vector keeps its radius, and a vector
+   shorter than 1e-8 with components of the size of its length round-trips exactly *)
+Lemma radius_kept deg x y z : snd (vec2polar ROps deg (x, y, z)) = nrm (x, y, z).
+Proof. destruct deg; reflexivity. Qed.
+
+Lemma short_vector_roundtrip :
   let v : vec3 (T:=R) := (1 / 1000000000, 1 / 1000000000, 0) in
-  0 < nrm v /\ snd (vec2polar ROps false v) = 0 /\
-  polar2vec_r ROps false (vec2polar ROps false v) <> v.
+  0 < nrm v /\ polar2vec_r ROps false (vec2polar ROps false v) = v.
 Proof.
   cbv zeta.
-  assert (Hs : snap (1 / 1000000000) = 0).
-  { unfold snap. destruct (Rleb (Rabs (1 / 1000000000)) tol8) eqn:E; [reflexivity |].
-    apply Rleb_false in E. rewrite Rabs_right in E by lra. unfold tol8 in E. lra. }
-  assert (Hr : snd (vec2polar ROps false (1 / 1000000000, 1 / 1000000000, 0)) = 0).
-  { unfold vec2polar. rewrite to_polar_unfold. cbn [snd]. rewrite radial_unfold, Hs.
-    unfold nrm, vnorm. rsimpl. replace (0 * 0 + 0 * 0 + 0 * 0) with 0 by ring. apply sqrt_0. }
-  split; [| split].
-  - pose proof (nrm_sq (1 / 1000000000) (1 / 1000000000) 0) as E.
+  assert (Hn : 0 < nrm (1 / 1000000000, 1 / 1000000000, 0)).
+  { pose proof (nrm_sq (1 / 1000000000) (1 / 1000000000) 0) as E.
     pose proof (nrm_nonneg (1 / 1000000000, 1 / 1000000000, 0)) as H.
-    destruct H as [H | H]; [exact H |]. rewrite <- H in E. lra.
-  - exact Hr.
-  - destruct (vec2polar ROps false (1 / 1000000000, 1 / 1000000000, 0)) as [[a t] r] eqn:E.
-    cbn [snd] in Hr. subst r. unfold polar2vec_r, from_polar. rsimpl. cbv zeta.
-    intro H. inversion H as [[H1 H2 H3]]. lra.
+    destruct H as [H | H]; [exact H |]. rewrite <- H in E. lra. }
+  assert (Hb : nosnapr (nrm (1 / 1000000000, 1 / 1000000000, 0)) (1 / 1000000000)).
+  { right. rewrite Rabs_right by lra.
+    pose proof (nrm_sq (1 / 1000000000) (1 / 1000000000) 0) as E.
+    set (n := nrm (1 / 1000000000, 1 / 1000000000, 0)) in *. unfold tol8.
+    assert (n < 2 / 1000000000) by nra. lra. }
+  split; [exact Hn |]. apply cart_sph_cart_rad; assumption.
 Qed.
 
-(* spherical -> Cartesian -> spherical, radians: r > 0, polar strictly between
-   the poles, azimuth in [0, 2 PI); x and y components outside the snapping band *)
+(* spherical -> Cartesian -> spherical, radians: r > 0 (ANY radius), polar strictly
+   between the poles, azimuth in [0, 2 PI); the direction cosines x/r and y/r are
+   outside the rounding band *)
 Lemma sph_cart_sph_rad a t r : 0 < r -> 0 < t < PI -> 0 <= a < 2 * PI ->
-  nosnap (r * (cos a * sin t)) -> nosnap (r * (sin a * sin t)) ->
+  nosnap (cos a * sin t) -> nosnap (sin a * sin t) ->
   vec2polar ROps false (polar2vec_r ROps false (a, t, r)) = (a, t, r).
 Proof.
   intros Hr Ht Ha Hx Hy. pose proof PI_RGT_0 as Hpi.
+  apply (nosnapr_scale r) in Hx; [| exact Hr]. apply (nosnapr_scale r) in Hy; [| exact Hr].
   unfold polar2vec_r, from_polar, vec2polar. rsimpl. cbv zeta. rewrite to_polar_unfold.
   rewrite azimuth_unfold, polar_unfold, radial_unfold.
-  rewrite !(snap_id _ Hx), !(snap_id _ Hy).
   assert (Hst : 0 < sin t) by (apply sin_gt_0; lra).
   assert (Hn : nrm (r * (cos a * sin t), r * (sin a * sin t), r * cos t) = r).
   { unfold nrm, vnorm. rsimpl.
@@ -544,9 +784,10 @@ Proof.
       with (r² * ((sin t)² * ((sin a)² + (cos a)²) + (cos t)²)) by (unfold Rsqr; ring).
     rewrite sin2_cos2, Rmult_1_r, sin2_cos2, Rmult_1_r. apply sqrt_Rsqr. lra. }
   rewrite Hn.
+  rewrite !(snapr_id _ _ Hx), !(snapr_id _ _ Hy).
   replace (r * cos t / r) with (cos t) by (field; lra).
   rewrite acos_cos by lra.
-  f_equal. f_equal.
+  f_equal. f_equal. unfold wrap2pi.
   set (k := r * sin t). assert (Hk : 0 < k) by (unfold k; nra).
   replace (r * (sin a * sin t)) with (k * sin a) by (unfold k; ring).
   replace (r * (cos a * sin t)) with (k * cos a) by (unfold k; ring).
@@ -564,8 +805,8 @@ Proof.
 Qed.
 
 Lemma sph_cart_sph_deg a t r : 0 < r -> 0 < t < 180 -> 0 <= a < 360 ->
-  nosnap (r * (cos (a * (PI / 180)) * sin (t * (PI / 180)))) ->
-  nosnap (r * (sin (a * (PI / 180)) * sin (t * (PI / 180)))) ->
+  nosnap (cos (a * (PI / 180)) * sin (t * (PI / 180))) ->
+  nosnap (sin (a * (PI / 180)) * sin (t * (PI / 180))) ->
   vec2polar ROps true (polar2vec_r ROps true (a, t, r)) = (a, t, r).
 Proof.
   intros Hr Ht Ha Hx Hy. pose proof PI_RGT_0 as Hpi.
@@ -586,35 +827,47 @@ Proof.
   unfold polar2vec_r, from_polar, vec2polar. rsimpl. cbv zeta. rewrite to_polar_unfold.
   rewrite azimuth_unfold, polar_unfold, radial_unfold.
   rewrite sin_0, cos_0, !Rmult_0_r, Rmult_1_r.
-  assert (Hs : snap 0 = 0) by (apply snap_id; left; reflexivity). rewrite !Hs.
+  assert (Hs : forall n, snapr n 0 = 0) by (intros n; apply snapr_id; left; reflexivity). rewrite !Hs.
   assert (Hn : nrm (0, 0, r) = r).
   { unfold nrm, vnorm. rsimpl. replace (0 * 0 + 0 * 0 + r * r) with (r²) by (unfold Rsqr; ring).
     apply sqrt_Rsqr. lra. }
   rewrite Hn. replace (r / r) with 1 by (field; lra). rewrite acos_1.
-  assert (Ha : Ratan2 0 0 = 0).
-  { unfold Ratan2. destruct (Rlt_dec 0 0); [lra |]. reflexivity. }
-  rewrite Ha. assert (Hb : Rltb 0 0 = false) by (apply Rltb_false; lra). rewrite Hb.
+  rewrite atan2_0_0. unfold wrap2pi.
+  assert (Hb : Rltb 0 0 = false) by (apply Rltb_false; lra). rewrite Hb.
   f_equal. f_equal. ring.
 Qed.
 
 (* ------------------------------------------------------ array-level glue *)
 Lemma forward_disk p vs X Y : is_pole p -> In (X, Y) (vector2xy ROps p vs) ->
-  exists v, In v vs /\ sel p v = true /\ (X, Y) = project1 ROps p v /\
-    (eps9 < nrm v -> X * X + Y * Y <= (nrm v + eps9) / (nrm v - eps9)) /\
-    (nrm v <> 0 -> p * snd v <= 0 -> X * X + Y * Y <= 1).
+  exists v, In v vs /\ selu p v = true /\ (X, Y) = project1 ROps p v /\
+    X * X + Y * Y <= (1 + eps9) / (1 - eps9) /\
+    (p * snd v <= 0 -> X * X + Y * Y <= 1).
 Proof.
   intros Hp H. apply in_vector2xy in H. destruct H as [v [H1 [H2 H3]]].
   exists v. repeat split; auto.
-  - intros Hn. pose proof (project1_disk p v Hp H2 Hn) as D. rewrite <- H3 in D. exact D.
-  - intros Hn Hz. pose proof (project1_disk_closed p v Hp Hn Hz) as D. rewrite <- H3 in D. exact D.
+  - pose proof (project1_disk p v Hp H2) as D. rewrite <- H3 in D. exact D.
+  - intros Hz. pose proof (project1_disk_closed p v Hp Hz) as D. rewrite <- H3 in D. exact D.
 Qed.
 
-(* every selected vector of length >= 1e-9 is recovered (as a unit vector) from its image *)
+(* every selected non-zero vector, whatever its length, is recovered (as a unit
+   vector) from its image *)
 Lemma forward_roundtrip p vs P : is_pole p -> In P (vector2xy ROps p vs) ->
-  exists v, In v vs /\ P = project1 ROps p v /\ (eps9 <= nrm v -> xy2vec ROps p P = vunit ROps v).
+  exists v, In v vs /\ selu p v = true /\ P = project1 ROps p v /\
+    (nrm v <> 0 -> xy2vec ROps p P = vunit ROps v).
 Proof.
   intros Hp H. apply in_vector2xy in H. destruct H as [v [H1 [H2 H3]]].
   exists v. repeat split; auto. intros Hn. subst P. apply project1_roundtrip; assumption.
+Qed.
+
+(* which vectors are returned: the test is on the direction only *)
+Lemma selection_spec p k x y z : is_pole p -> 0 < k -> nrm (x, y, z) <> 0 ->
+  selu p (k * x, k * y, k * z) = selu p (x, y, z) /\
+  (selu p (x, y, z) = true <-> - eps9 * nrm (x, y, z) < - p * z) /\
+  (selu (-1) (x, y, z) = true -> selu 1 (x, y, z) = true -> Rabs z < eps9 * nrm (x, y, z)).
+Proof.
+  intros Hp Hk Hn. split; [apply selu_scale; assumption | split].
+  - apply selu_true. exact Hn.
+  - apply selu_both. exact Hn.
 Qed.
 
 (* acos u <= PI/2 iff u >= 0 : the polar angle is on the upper hemisphere grid
